@@ -35,6 +35,22 @@ MAX_HELPER_STMTS = 40
 MAX_ROUNDS = 4
 
 
+_LIB_NAMES = None
+
+
+def _library_method_names() -> set:
+    """public method / attribute names of networkx graphs, numpy arrays, random.Random and the collections containers
+    (frozen list, gcmstatic/library_method_names.json): `g.has_edge(..)` on some object is far more likely the library's
+    method than a new repo method of the same name"""
+    global _LIB_NAMES
+    if _LIB_NAMES is None:
+        try:
+            _LIB_NAMES = set(json.load(open(os.path.join(os.path.dirname(os.path.abspath(__file__)), "library_method_names.json"))))
+        except Exception:
+            _LIB_NAMES = set()
+    return _LIB_NAMES
+
+
 def load_vocabulary() -> set:
     p = os.path.join(VERIF, "known_functions.json")
     try:
@@ -451,6 +467,62 @@ def stable_temp_pass(fn: ast.FunctionDef, qual: str, known_locals: Dict[str, set
 
 
 
+def parallel_and_rename_pass(fn: ast.FunctionDef, qual: str, known_locals: Dict[str, set], log: List[str], mod: str) -> bool:
+    """P2: `a, self.b = (x, y)` where a value is a NEW local and no target name occurs in a value is `a = x; self.b = y`.
+    N: `t = s` where s is a NEW local bound exactly once and t is bound only here (and read only afterwards, in the
+    rest of this block): s IS t under an earlier name - s is renamed to t everywhere and the statement dropped."""
+    known = known_locals.get(qual)
+    if known is None and known_locals:
+        known = set()
+    if known is None:
+        return False
+    params = {a.arg for a in fn.args.posonlyargs + fn.args.args + fn.args.kwonlyargs}
+    changed_any = False
+    for _ in range(30):
+        changed = False
+        binds: Dict[str, int] = {}
+        for n in _walk_own(fn):
+            if isinstance(n, ast.Name) and isinstance(n.ctx, (ast.Store, ast.Del)):
+                binds[n.id] = binds.get(n.id, 0) + 1
+        for blk in _blocks_of(fn):
+            for i, st in enumerate(blk):
+                if not (isinstance(st, ast.Assign) and len(st.targets) == 1):
+                    continue
+                t, v = st.targets[0], st.value
+                if isinstance(t, ast.Tuple) and isinstance(v, ast.Tuple) and len(t.elts) == len(v.elts) and len(t.elts) > 1 \
+                        and not any(isinstance(x, ast.Starred) for x in list(t.elts) + list(v.elts)):
+                    vnames = {x.id for x in ast.walk(v) if isinstance(x, ast.Name)}
+                    troots = {_root_name(x) for x in t.elts}
+                    new_vals = [x for x in v.elts if isinstance(x, ast.Name) and x.id not in known and x.id not in params]
+                    tpaths = {ast.unparse(x) for x in t.elts if not isinstance(x, ast.Name)}
+                    if new_vals and None not in troots and not (troots & vnames) and not any(tp in ast.unparse(v) for tp in tpaths):
+                        parts = [ast.copy_location(ast.Assign(targets=[te], value=ve, type_comment=None), st) for te, ve in zip(t.elts, v.elts)]
+                        for p_ in parts:
+                            ast.fix_missing_locations(p_)
+                        blk[i:i + 1] = parts
+                        log.append(f"P2 {mod}:{st.lineno} parallel assignment of a tuple literal split")
+                        changed = changed_any = True
+                        break
+                if isinstance(t, ast.Name) and isinstance(v, ast.Name) and v.id != t.id and v.id not in known and v.id not in params \
+                        and binds.get(v.id) == 1 and binds.get(t.id) == 1 and t.id not in params:
+                    rest_ids = {id(n) for s_ in blk[i + 1:] for n in ast.walk(s_)}
+                    t_reads = [n for n in ast.walk(fn) if isinstance(n, ast.Name) and n.id == t.id and n is not t]
+                    if all(id(n) in rest_ids for n in t_reads) and not any(isinstance(n, (ast.Global, ast.Nonlocal)) and (t.id in n.names or v.id in n.names) for n in ast.walk(fn)):
+                        old_name = v.id
+                        for n in ast.walk(fn):
+                            if isinstance(n, ast.Name) and n.id == old_name:
+                                n.id = t.id
+                        blk.pop(i)
+                        log.append(f"N {mod}:{st.lineno} new local `{old_name}` is `{t.id}` under an earlier name: renamed")
+                        changed = changed_any = True
+                        break
+            if changed:
+                break
+        if not changed:
+            break
+    return changed_any
+
+
 def _effect_free(v) -> bool:
     if _pure_temp_value(v):
         return True
@@ -785,6 +857,43 @@ class Normalizer:
         return False
 
     def resolve(self, call: ast.Call, mod: str, cls: Optional[str], self_name: Optional[str]):
+        r = self._resolve(call, mod, cls, self_name)
+        if r is not None and r[0].module != mod:
+            self.__dict__.setdefault("cross", set()).add((mod, r[0].module))
+        return r
+
+    def _carry_imports(self):
+        """Code spliced in from another module keeps referring to that module's imports (`random`, `nx`, `chain`): an
+        import the receiving module lacks is added to it, so that names still resolve to the library they mean."""
+        for mod, src in sorted(self.__dict__.get("cross", ())):
+            tree, stree = self.trees.get(mod), self.trees.get(src)
+            if tree is None or stree is None:
+                continue
+            bound = set()
+            for st in tree.body:
+                if isinstance(st, (ast.Import, ast.ImportFrom)):
+                    bound |= {(a.asname or a.name).split(".")[0] for a in st.names}
+                elif isinstance(st, (ast.FunctionDef, ast.ClassDef)):
+                    bound.add(st.name)
+                elif isinstance(st, ast.Assign):
+                    bound |= {t.id for t in st.targets if isinstance(t, ast.Name)}
+            used = {n.id for n in ast.walk(tree) if isinstance(n, ast.Name) and isinstance(n.ctx, ast.Load)}
+            add = []
+            for st in stree.body:
+                if isinstance(st, (ast.Import, ast.ImportFrom)) and not getattr(st, "level", 0):
+                    keep = [a for a in st.names if (a.asname or a.name).split(".")[0] in used and (a.asname or a.name).split(".")[0] not in bound and a.name != "*"]
+                    if keep:
+                        c = copy.deepcopy(st)
+                        c.names = keep
+                        add.append(c)
+                        bound |= {(a.asname or a.name).split(".")[0] for a in keep}
+            if add:
+                k = 1 if tree.body and isinstance(tree.body[0], ast.Expr) and isinstance(getattr(tree.body[0], "value", None), ast.Constant) else 0
+                tree.body[k:k] = add
+                ast.fix_missing_locations(tree)
+                self.log.append(f"H {mod}: imports {[ast.unparse(a) for a in add]} carried over from {src} with the code spliced in")
+
+    def _resolve(self, call: ast.Call, mod: str, cls: Optional[str], self_name: Optional[str]):
         """-> (Helper, receiver expr or None) for a call to an inlinable non-vocabulary helper."""
         f = call.func
         if any(isinstance(a, ast.Starred) for a in call.args) or any(k.arg is None for k in call.keywords):
@@ -793,6 +902,12 @@ class Normalizer:
             h = self.helpers_fn.get((mod, f.id))
             if h is None and f.id in self.imports.get(mod, {}):
                 h = self.helpers_fn.get(self.imports[mod][f.id])
+            if h is None and f.id not in self.imports.get(mod, {}) and f.id not in self.vocab:
+                # a helper of ANOTHER module whose caller was itself spliced in here (the name is not imported in this
+                # module): the one new module-level function of that name in the program
+                cands = [hh for (m_, nm), hh in self.helpers_fn.items() if nm == f.id]
+                if len(cands) == 1 and not any(isinstance(st, (ast.FunctionDef, ast.ClassDef)) and st.name == f.id for st in self.trees[mod].body):
+                    h = cands[0]
             return (h, None) if h else None
         if isinstance(f, ast.Attribute) and isinstance(f.value, ast.Name):
             recv = f.value.id
@@ -802,6 +917,13 @@ class Normalizer:
             elif recv in self.class_bases:
                 target_cls = recv
             if target_cls is None:
+                # `obj.m(..)` on some object: when m is the name of exactly ONE new method in the whole program, of no
+                # existing function / method, of no container method and obj is not an imported module, that is the callee
+                cands = [h for (c, nm), h in self.helpers_m.items() if nm == f.attr]
+                if len(cands) == 1 and cands[0].kind == "method" and recv not in self.imports.get(mod, {}) and recv not in ("self", "cls") \
+                        and f.attr not in {m for ty in (dict, list, set, tuple, str, frozenset) for m in dir(ty)} and f.attr not in _library_method_names() \
+                        and not any(q.split(".")[-1] == f.attr for q in self.vocab) and not any(nm == f.attr for (_, nm) in self.helpers_fn):
+                    return cands[0], f.value
                 return None
             for c in self._mro(target_cls):
                 h = self.helpers_m.get((c, f.attr))
@@ -886,7 +1008,26 @@ class Normalizer:
         params_assigned = _bound_names(_body_wo_doc(h.node)) & set(bound)
         if params_assigned:
             return None
-        # resolve temporaries into the result (each is single-assignment by construction)
+        # A temporary that is read more than once must denote the same value at every read: not a call with effects
+        # (evaluated once by the helper) and not a fresh mutable object (`s = [..]; shuffle(s); return s` is ONE list).
+        # And the order of effects must survive the substitution: at most one effectful piece.
+        def _effectful(e_):
+            return any(isinstance(x, ast.Call) and not (isinstance(x.func, ast.Name) and x.func.id in PURE_BUILTINS) for x in ast.walk(e_))
+
+        def _fresh_mutable(e_):
+            return isinstance(e_, (ast.List, ast.Dict, ast.Set, ast.ListComp, ast.DictComp, ast.SetComp)) or \
+                (isinstance(e_, ast.Call) and isinstance(e_.func, ast.Name) and e_.func.id in ("list", "dict", "set", "sorted"))
+        n_eff = 0
+        for k_, (name, e) in enumerate(temps):
+            later = [x for _, x in temps[k_ + 1:]] + [result]
+            uses = sum(_count_loads(x, name) for x in later)
+            if (_effectful(e) or _fresh_mutable(e)) and uses != 1:
+                return None
+            n_eff += 1 if _effectful(e) else 0
+        names_ = {nm for nm, _ in temps}
+        res_own = copy.deepcopy(result)
+        if n_eff + (1 if any(isinstance(x, ast.Call) and not (isinstance(x.func, ast.Name) and x.func.id in PURE_BUILTINS) for x in ast.walk(res_own)) else 0) > 1:
+            return None
         env: Dict[str, ast.expr] = {}
         for name, e in temps:
             e2 = _Subst(dict(env), {}).visit(copy.deepcopy(e))
@@ -1258,10 +1399,12 @@ class Normalizer:
             if not any_change:
                 break
         self._drop_absorbed()
+        self._carry_imports()
         known_locals = load_locals()
 
         def each(fn, qual, cls_node):
             fold_function(fn)          # what inlining a helper with constant arguments leaves behind
+            parallel_and_rename_pass(fn, qual, known_locals, self.log, mod)
             alias_pass(fn, cls_node, self.log, mod)
             temp_pass(fn, qual, known_locals, self.log, mod)
             for _ in range(4):
@@ -1682,6 +1825,36 @@ def _specialise_param(fn: ast.FunctionDef, name: str, default: ast.expr) -> bool
     return True
 
 
+def _calls_outside_existing_behaviour(trees, sigs) -> set:
+    """ids of the Call nodes written in NEW top-level functions / methods that no existing function reaches.
+    The calls that existing behaviour can go through are those written in functions that exist on the pinned tree, in
+    the new functions these (transitively, by name) call, and at module / class level.  A call made only by a NEW
+    public function (a sibling that offers the non-default path) is new functionality."""
+    defs_by_name: Dict[str, list] = {}
+    vocab_nodes = []
+    for _mod, fdef, _qual, _cls in _vocab_functions(trees):
+        defs_by_name.setdefault(fdef.name, []).append(fdef)
+        if _qual in sigs:
+            vocab_nodes.append(fdef)
+    reach = {id(f_): f_ for f_ in vocab_nodes}
+    frontier = list(vocab_nodes)
+    while frontier:
+        f_ = frontier.pop()
+        for c_ in ast.walk(f_):
+            if isinstance(c_, ast.Call):
+                nm_ = c_.func.attr if isinstance(c_.func, ast.Attribute) else (c_.func.id if isinstance(c_.func, ast.Name) else None)
+                for g_ in defs_by_name.get(nm_, []):
+                    if id(g_) not in reach:
+                        reach[id(g_)] = g_
+                        frontier.append(g_)
+    top_defs = {id(fdef): fdef for _mod, fdef, _qual, _cls in _vocab_functions(trees)}
+    excluded = set()
+    for fid, fdef in top_defs.items():
+        if fid not in reach:
+            excluded |= {id(c_) for c_ in ast.walk(fdef) if isinstance(c_, ast.Call)}
+    return excluded
+
+
 def optional_params_pass(trees: Dict[str, ast.Module], vocab: dict, log: List[str], is_const=None) -> None:
     """O: a parameter that an existing function does not have on the pinned tree and that carries an immutable default
     is an optional extension.  The properties speak about the calls that existed, which all run with the default: the
@@ -1690,7 +1863,25 @@ def optional_params_pass(trees: Dict[str, ast.Module], vocab: dict, log: List[st
     sigs = vocab.get("params")
     if not sigs:
         return
+    excluded = _calls_outside_existing_behaviour(trees, sigs)
+    all_calls = [n for tree in trees.values() for n in ast.walk(tree) if isinstance(n, ast.Call) and id(n) not in excluded]
+    # call -> {parameter of the enclosing function: its default}: `rng=rng` handed through by a function whose own `rng`
+    # has the same default is "the default" as long as nobody at the top of the chain passes anything else
+    enclosing_defaults: Dict[int, Dict[str, ast.expr]] = {}
+    for _mod, fdef, _qual, _cls in _vocab_functions(trees):
+        a_ = fdef.args
+        pos_ = a_.posonlyargs + a_.args
+        dm_ = {p2.arg: d2 for p2, d2 in zip(pos_[len(pos_) - len(a_.defaults):], a_.defaults)}
+        dm_.update({p2.arg: d2 for p2, d2 in zip(a_.kwonlyargs, a_.kw_defaults) if d2 is not None})
+        stored_ = {x.id for x in ast.walk(fdef) if isinstance(x, ast.Name) and isinstance(x.ctx, (ast.Store, ast.Del))}
+        pinned_ = {x.lstrip("*") for x in sigs.get(_qual, [])}       # an EXISTING parameter can carry a caller's value
+        dm_ = {k_: v_ for k_, v_ in dm_.items() if k_ not in stored_ and k_ not in pinned_}
+        if dm_:
+            for c_ in ast.walk(fdef):
+                if isinstance(c_, ast.Call):
+                    enclosing_defaults.setdefault(id(c_), {}).update(dm_)
     removed: Dict[str, Dict[str, ast.expr]] = {}         # function NAME -> {param: default}
+    removed_pos: Dict[str, Dict[int, ast.expr]] = {}     # function NAME -> {explicit positional index: default}
     for mod, fn, qual, cls in _vocab_functions(trees):
         if qual not in sigs:
             continue
@@ -1703,13 +1894,40 @@ def optional_params_pass(trees: Dict[str, ast.Module], vocab: dict, log: List[st
         for p_, d_ in zip(a.kwonlyargs, a.kw_defaults):
             if d_ is not None:
                 dmap[p_.arg] = d_
+        pos_before = list(pos)
         for p_ in list(pos) + list(a.kwonlyargs):
             if p_.arg in known or p_.arg not in dmap or not (is_const or _immutable_literal)(dmap[p_.arg]):
                 continue
             if p_ in pos and any(q.arg in known for q in pos[pos.index(p_) + 1:]):
                 continue          # not at the tail: removing it would shift existing positional parameters
+            # the calls that exist in the repo must themselves run with the default: a caller that was changed to hand
+            # in something else takes the new path, and then the new path IS what existing behaviour goes through
+            explicit0 = [q.arg for q in pos if not (cls is not None and q is pos[0] and q.arg in ("self", "cls"))]
+            pidx = explicit0.index(p_.arg) if p_ in pos else None
+            callee_names = {fn.name} | ({cls} if cls is not None and fn.name == "__init__" else set())
+            overridden = False
+            for n in all_calls:
+                nm = n.func.attr if isinstance(n.func, ast.Attribute) else (n.func.id if isinstance(n.func, ast.Name) else None)
+                if nm not in callee_names:
+                    continue
+                vals = [k.value for k in n.keywords if k.arg == p_.arg]
+                if pidx is not None and len(n.args) > pidx and not any(isinstance(x, ast.Starred) for x in n.args):
+                    vals.append(n.args[pidx])
+                if any(k.arg is None for k in n.keywords) or any(isinstance(x, ast.Starred) for x in n.args):
+                    vals.append(None)          # **kwargs / *args: unknown
+                for v_ in vals:
+                    d_ = dmap[p_.arg]
+                    same = v_ is not None and ast.unparse(_Fold().visit(copy.deepcopy(v_))) == ast.unparse(_Fold().visit(copy.deepcopy(d_)))
+                    if not same and isinstance(v_, ast.Name):
+                        ed_ = enclosing_defaults.get(id(n), {}).get(v_.id)
+                        same = ed_ is not None and ast.unparse(_Fold().visit(copy.deepcopy(ed_))) == ast.unparse(_Fold().visit(copy.deepcopy(d_)))
+                    if not same:
+                        overridden = True
+            if overridden:
+                continue
             if not _specialise_param(fn, p_.arg, dmap[p_.arg]):
                 continue
+            was_kwonly = p_ in a.kwonlyargs
             if p_ in a.kwonlyargs:
                 k = a.kwonlyargs.index(p_)
                 a.kwonlyargs.pop(k)
@@ -1721,6 +1939,9 @@ def optional_params_pass(trees: Dict[str, ast.Module], vocab: dict, log: List[st
                 lst.remove(p_)
                 pos = a.posonlyargs + a.args
             removed.setdefault(fn.name, {})[p_.arg] = dmap[p_.arg]
+            if not was_kwonly:
+                explicit = [q.arg for q in pos_before if not (cls is not None and q is pos_before[0] and q.arg in ("self", "cls"))]
+                removed_pos.setdefault(fn.name, {})[explicit.index(p_.arg)] = dmap[p_.arg]
             log.append(f"O {mod}:{fn.lineno} `{qual}` specialised to the default of its new optional parameter `{p_.arg}={ast.unparse(dmap[p_.arg])}`")
         fold_function(fn)
     if not removed:
@@ -1738,6 +1959,16 @@ def optional_params_pass(trees: Dict[str, ast.Module], vocab: dict, log: List[st
                             continue
                         keep.append(k)
                     n.keywords = keep
+            if isinstance(n, ast.Call) and n.args and not any(isinstance(x, ast.Starred) for x in n.args):
+                nm = n.func.attr if isinstance(n.func, ast.Attribute) else (n.func.id if isinstance(n.func, ast.Name) else None)
+                # trailing positional arguments that hand the very default on
+                while nm in removed_pos and (len(n.args) - 1) in removed_pos[nm]:
+                    d_ = removed_pos[nm][len(n.args) - 1]
+                    v_ = n.args[-1]
+                    if isinstance(v_, ast.Constant) and isinstance(d_, ast.Constant) and v_.value == d_.value and type(v_.value) is type(d_.value):
+                        n.args.pop()
+                    else:
+                        break
 
 
 def const_args_pass(trees: Dict[str, ast.Module], vocab: dict, log: List[str], is_const) -> None:
@@ -1763,16 +1994,26 @@ def const_args_pass(trees: Dict[str, ast.Module], vocab: dict, log: List[str], i
     if not new:
         return
     calls: Dict[str, list] = {}
+    called_from_vocab = set()
     for vf in vocab_fns:
         for n in ast.walk(vf):
             if isinstance(n, ast.Call):
+                nm = n.func.attr if isinstance(n.func, ast.Attribute) else (n.func.id if isinstance(n.func, ast.Name) else None)
+                if nm in new:
+                    called_from_vocab.add(nm)
+    # every call site in the program has to agree (a helper reached through another new helper with a different
+    # argument must keep its parameter)
+    excluded = _calls_outside_existing_behaviour(trees, sigs)
+    for tree in trees.values():
+        for n in ast.walk(tree):
+            if isinstance(n, ast.Call) and id(n) not in excluded:
                 nm = n.func.attr if isinstance(n.func, ast.Attribute) else (n.func.id if isinstance(n.func, ast.Name) else None)
                 if nm in new and (isinstance(n.func, ast.Attribute) == new[nm][1] or isinstance(n.func, ast.Name) and not new[nm][1]):
                     calls.setdefault(nm, []).append(n)
     for name, (g, is_m, mod) in new.items():
         sites = calls.get(name)
         a = g.args
-        if not sites or a.vararg or a.kwarg:
+        if not sites or a.vararg or a.kwarg or name not in called_from_vocab:
             continue
         if any(isinstance(x, ast.Starred) for c in sites for x in c.args) or any(k.arg is None for c in sites for k in c.keywords):
             continue
@@ -2046,19 +2287,30 @@ def constants_and_noise_pass(trees: Dict[str, ast.Module], log: List[str]) -> No
                     and st.targets[0].id not in known_mod.get(mod, []) and isinstance(st.value, ast.Call) and ast.unparse(st.value) == "object()":
                 sentinels.add(st.targets[0].id)
     _Fold.stable_names = sentinels
-    optional_params_pass(trees, d, log, lambda e: constant_value(e) or (isinstance(e, ast.Name) and e.id in sentinels))
-    for tree in trees.values():
-        for n in ast.walk(tree):
-            if isinstance(n, (ast.FunctionDef, ast.AsyncFunctionDef)):
-                fold_function(n)
-    # second round: what became a constant once the dead stores of the specialised parameters are gone
-    collect()
-    for cname, cs in instance_constants(trees, d).items():
-        cls_consts.setdefault(cname, {}).update(cs)
-    if mod_consts or cls_consts or imported:
-        for mod, tree in trees.items():
-            K(mod, None).visit(tree)
-    const_args_pass(trees, d, log, constant_value)
+    for _round in range(4):
+        before = len(log)
+        optional_params_pass(trees, d, log, lambda e: constant_value(e) or (isinstance(e, ast.Name) and e.id in sentinels))
+        for tree in trees.values():
+            for n in ast.walk(tree):
+                if isinstance(n, (ast.FunctionDef, ast.AsyncFunctionDef)):
+                    fold_function(n)
+        # what became a constant once the dead stores of the specialised parameters are gone (and then which further
+        # parameters only ever receive their default: `rng=self._rng` with `self._rng` always None)
+        collect()
+        for cname, cs in instance_constants(trees, d).items():
+            cls_consts.setdefault(cname, {}).update(cs)
+        if mod_consts or cls_consts or imported:
+            for mod, tree in trees.items():
+                K(mod, None).visit(tree)
+        const_args_pass(trees, d, log, constant_value)
+        # locals that now hold a constant (`rng = self._rng` with `self._rng` always None) are propagated, so that the
+        # next round sees `f(.., rng=None)` at the call sites
+        kl_ = load_locals()
+        for mod_, fn_, qual_, _c in _vocab_functions(trees):
+            if stable_temp_pass(fn_, qual_, kl_, log, mod_):
+                fold_function(fn_)
+        if len(log) == before:
+            break
     for mod, tree in trees.items():
         for n in ast.walk(tree):
             if isinstance(n, (ast.FunctionDef, ast.AsyncFunctionDef)):
